@@ -255,7 +255,7 @@ func oblScript(res *FnResult, o *Obl) string {
 }
 
 func dischargeAll(res *FnResult, opts *runOpts) {
-	dir := filepath.Join(opts.workdir, sanitize(res.Display))
+	dir := filepath.Join(opts.workdir, shortName(res.Display, 80))
 	os.MkdirAll(dir, 0o755)
 	jobs := opts.jobs
 	if jobs <= 0 {
@@ -289,7 +289,7 @@ func dischargeAll(res *FnResult, opts *runOpts) {
 				o.Status = "unknown"
 				o.Model = r.status + ": " + firstLines(r.output, 3)
 			}
-			o.Script = filepath.Join(dir, sanitize(o.Name)+".smt2")
+			o.Script = filepath.Join(dir, shortName(o.Name, 90)+".smt2")
 		}(o)
 	}
 	// vacuity check in parallel
